@@ -455,6 +455,8 @@ class CallMixin:
         raise Unsupported(f"int({v!r})")
 
     def to_str(self, v, node):
+        if isinstance(v, AnyV):
+            return self.any_to_str(v)
         if isinstance(v, str):
             return v
         if isinstance(v, Sym) and v.ty == "str":
@@ -543,6 +545,8 @@ class CallMixin:
                     return args[1] if len(args) > 1 else None
             if attr == "items":
                 return list(obj.items())
+            if attr == "values":
+                return list(obj.values())
             if attr == "keys":
                 return list(obj.keys())
             if attr == "update":
